@@ -140,6 +140,7 @@ type analyzer struct {
 	cur     *fn
 	gos     []map[string]string
 	litN    map[string]int
+	lib     []*packages.Package
 }
 
 func main() {
@@ -203,6 +204,7 @@ func main() {
 		}
 	}
 	a.assignRoles()
+	a.lib = lib
 	a.emit()
 }
 
@@ -1283,6 +1285,7 @@ func (a *analyzer) emit() {
 		"entry_locks":                  entries,
 		"functions":                    len(a.order),
 		"protocols":                    a.protocols(),
+		"pool":                         a.poolCheck(a.lib),
 	}
 	enc := json.NewEncoder(os.Stdout)
 	enc.SetIndent("", " ")
